@@ -65,7 +65,9 @@ def conn (impl : String) : P Verdict := do
   let c : Conn := ⟨⟨a, b, pa, pb⟩, ic, is'⟩
   let ps := c.packets ds
   let os := run parsers [] ps
-  let specified := ds.all (fun d => !hasFlag d.flags FIN && !hasFlag d.flags RST && !hasFlag d.flags SYN) &&
+  -- FIN on a data segment is part of the statement's domain (the sender's last segment carries it; the
+  -- statement quantifies over every arrival order); RST / SYN among the data are not
+  let specified := ds.all (fun d => !hasFlag d.flags RST && !hasFlag d.flags SYN) &&
     totalLen (segsOf true ds) ≤ maxBufferedHeadBytes && totalLen (segsOf false ds) ≤ maxBufferedHeadBytes &&
     !(a == b && pa == pb)
   let spec := if specified then some (showRun ps (specConn parsers c ds)) else none
@@ -75,7 +77,7 @@ def conn (impl : String) : P Verdict := do
       (if hasOverlap c.isnC (segsOf true ds) || hasOverlap c.isnS (segsOf false ds) then "d" else "") ++
       (if !AlwaysContiguous c.isnC (segsOf true ds) || !AlwaysContiguous c.isnS (segsOf false ds) then "g" else "")
     else ""
-  let kf : List String := []
+  let kf : List String := if ds.any (fun d => hasFlag d.flags FIN) then ["KF.C09.finBeforeHeadComplete"] else []
   let nC := (segsOf true ds).length
   let nS := (segsOf false ds).length
   let big := totalLen (segsOf true ds) > maxBufferedHeadBytes || totalLen (segsOf false ds) > maxBufferedHeadBytes
